@@ -30,6 +30,10 @@ import vlib
 THEOREM_MODULES = ["Yarel.Props.C13", "Yarel.Props.ModelLimits"]
 REQUIRED_THEOREMS = ["index_spec", "range_spec", "no_fault", "all_ops_valid", "boundary_iff_prefix", "find_spec",
                      "iter_concat"]
+# the state the models abstract is all the state there is: the fields of the run-time structures, regenerated on every run, are the ones
+# the models were written against (Props/StateInventory)
+THEOREM_MODULES.append("Yarel.Props.StateInventory")
+REQUIRED_THEOREMS += ['state_of_sequences_and_iterators']
 LEVEL = "proof"
 ASSUMPTIONS = [
     "model Yarel/Model/Str.lean transcribes vm.rs get_item_impl/string_get_item/slice_get_item/set_item_impl/"
